@@ -44,3 +44,24 @@ Print Assumptions C06_legacy_unexported_field_panics.
 Theorem C06_legacy_long_key_panics : exists w, field_name_legacy "aVeryLongFieldNameThatIsLongerThanThirtyTwoBytes" = Panic w.
 Proof. exact legacy_long_key_panics. Qed.
 Print Assumptions C06_legacy_long_key_panics.
+
+(** a field promoted from an embedded pointer that is nil is absent (FieldByName panicked on it) *)
+Theorem C06_promoted_field_lookup_never_panics : forall bn p k, exists b, lookup_promoted bn p k = Done b.
+Proof. exact lookup_promoted_never_panics. Qed.
+Print Assumptions C06_promoted_field_lookup_never_panics.
+Theorem C06_promoted_behind_nil_is_absent : forall bn p k, In k bn -> lookup_promoted bn p k = Done false.
+Proof. exact promoted_behind_nil_is_absent. Qed.
+Print Assumptions C06_promoted_behind_nil_is_absent.
+Theorem C06_legacy_nil_embedded_pointer_panics : exists w, lookup_promoted_legacy ["name"] (DFields [("B", true, true)]) "name" = Panic w.
+Proof. exact legacy_nil_embedded_pointer_panics. Qed.
+Print Assumptions C06_legacy_nil_embedded_pointer_panics.
+
+(** rendering an issue path is total (an empty key below another key made the legacy function index
+    out of range); on every other path the two agree *)
+Theorem C06_legacy_path_agrees_without_empty_segments : forall segs prev,
+  Forall (fun v => v <> "") segs -> render_legacy prev segs = Done (render_from prev segs).
+Proof. exact render_legacy_agrees_without_empty_segments. Qed.
+Print Assumptions C06_legacy_path_agrees_without_empty_segments.
+Theorem C06_legacy_empty_key_below_a_key_panics : exists w, render_legacy "" ["inner"; ""] = Panic w.
+Proof. exact legacy_empty_key_below_a_key_panics. Qed.
+Print Assumptions C06_legacy_empty_key_below_a_key_panics.
